@@ -15,6 +15,7 @@ import (
 	"path/filepath"
 	"sort"
 	"strings"
+	"testing/iotest"
 	"time"
 
 	"github.com/pkg/sftp"
@@ -38,6 +39,8 @@ type xcase struct {
 	src          string // len size limited stat opaque
 	backend      string // peer peerperm os osalloc req reqalloc
 	regular      bool
+	dataEOF      bool // ReadFrom sources without a length: the last bytes come together with io.EOF (as decompressors and iotest.DataErrReader do)
+	contigEnd    int  // oracle only (c13): where contiguous data ends after a short answer on a concurrent read path (0: not used)
 	ro           bool // read APIs: the file is opened read-only (Client.Open), which the request server serves through FileReader
 	modeKind     int  // peer backends, regular = false: 0 character device, 1 permissions without type bits, 2 no permissions attribute
 	statSize     int  // peer backends: what STAT / FSTAT report as the size - 0: the true size; k+1: k
@@ -63,7 +66,7 @@ func planStr(m map[uint64]uint32) string {
 func (x *xcase) kv() []string {
 	return []string{kvs("api", x.api), kvi("p", x.p), kvi("conc", x.conc), kvb("cr", x.cr), kvb("cw", x.cw), kvb("fstat", x.fst),
 		kvi("flen", x.flen), kvi("off", x.off), kvi("len", x.n), kvi("maxtx", x.maxtx), kvs("rfail", planStr(x.rfail)), kvs("wfail", planStr(x.wfail)),
-		kvs("src", x.src), kvb("regular", x.regular), kvs("be", x.backend), kvb("ro", x.ro), kvi("rfc", x.rfc), kvi("statsz", x.statSize), kvi("modekind", x.modeKind)}
+		kvs("src", x.src), kvb("regular", x.regular), kvs("be", x.backend), kvb("ro", x.ro), kvi("rfc", x.rfc), kvi("statsz", x.statSize), kvi("modekind", x.modeKind), kvb("dataeof", x.dataEOF)}
 }
 
 type sizedReader struct{ r *bytes.Reader }
@@ -210,6 +213,9 @@ func runX(x *xcase, seed int64) (*xresult, error) {
 				src = tf
 			default:
 				src = opaqueReader{br}
+				if x.dataEOF {
+					src = iotest.DataErrReader(src)
+				}
 			}
 			var n int64
 			var err error
